@@ -49,6 +49,12 @@ def mutate_output(y, only=None):
             pass
 
 
+RESULT_OPS = {
+    "softmax": lambda q: torch.softmax(q, -1), "relu": lambda q: torch.relu(q), "mul-scalar": lambda q: q * 2.0, "neg": lambda q: -q,
+    "transpose": lambda q: q.t(), "cat": lambda q: torch.cat([q, q]), "where": lambda q: torch.where(q.dequantize() > 0, q, q),
+}
+
+
 def py_state(model):
     from optimum.quanto.library import ops as libops
     from optimum.quanto.nn import QModuleMixin, qmodule
@@ -340,6 +346,28 @@ def run_case(case, res):
             res.query("quantize_activation-does-not-modify-its-input", "ALG", "unsat" if ok else "sat", 0.0)
             if not ok:
                 res.candidate("nowrite-lib", "ALG", dict(kind="nowrite-act", qtype=case["qtype"], x=x_enc))
+            # results of operations on quantized tensors belong to the caller too: overwrite one, run the operation again on
+            # fresh operands - the second result must be the term the first one was (no process-wide state behind the results)
+            for opname, fn in RESULT_OPS.items():
+                with Session(res) as m3:
+                    m3.symbolic(x, "x")
+                    # one scale tensor per call (the same variable): a result keeps the scale it was given by reference
+                    # (recorded finding C13/quantized-tensor-aliases-caller-scale), which is not what this clause is about
+                    s3 = torch.tensor(0.05)
+                    m3.symbolic(s3, "s")
+                    s4 = s3.clone()
+                    try:
+                        r1 = fn(quantize_activation(x, q_t, s3))
+                        R1 = m3.read(r1.dequantize() if isinstance(r1, QTensor) else r1).copy()
+                        mutate_output(r1)
+                        r2 = fn(quantize_activation(x, q_t, s4))
+                        R2 = m3.read(r2.dequantize() if isinstance(r2, QTensor) else r2)
+                        same_r = R1.shape == R2.shape and all(a_ is b_ for a_, b_ in zip(R1.reshape(-1), R2.reshape(-1)))
+                    except NotImplementedError:
+                        continue
+                res.query("operation-results-do-not-share-state", "ALG", "unsat" if same_r else "sat", 0.0, sub=opname)
+                if not same_r:
+                    res.candidate("op-result-state", "ALG", dict(kind="op-result-state", qtype=case["qtype"], op=opname, x=x_enc), exact=False)
             res.query("returned-tensor-does-not-alias-caller-tensors", "ALG", "unsat" if ok2 else "sat", 0.0, sub="in-place operations on the result of quantize_activation")
             if ok and not ok2:
                 res.candidate("region-witness:result-aliases-caller-scale", "ALG", dict(kind="alias-act", qtype=case["qtype"], x=x_enc), note=str(later[:2]), exact=False)
@@ -424,6 +452,17 @@ def replay(rec):
         x0 = x.clone()
         quantize_activation(x, wq.qt(inp["qtype"]), torch.tensor(0.05)).dequantize()
         return (not torch.equal(x, x0)), "quantize_activation modified its input", None
+    if inp["kind"] == "op-result-state":
+        fn = RESULT_OPS[inp["op"]]
+        x = api.dec_tensor(inp["x"])
+        q_t = wq.qt(inp["qtype"])
+        d = lambda t: (t.dequantize() if isinstance(t, QTensor) else t).clone()  # noqa
+        r1 = fn(quantize_activation(x, q_t, torch.tensor(0.05)))
+        v1 = d(r1)
+        mutate_output(r1)
+        v2 = d(fn(quantize_activation(x, q_t, torch.tensor(0.05))))
+        bad = not torch.equal(torch.nan_to_num(v1), torch.nan_to_num(v2))
+        return bad, f"{inp['op']} of the same quantized input gives {v2.tolist()} after an earlier result of the same operation was overwritten in place (before: {v1.tolist()})", None
     if inp["kind"] == "alias-act":
         culprits = []
         for name in MUTATIONS:
